@@ -86,6 +86,10 @@ def add_struct_core(u, sh):
     u.take_impl(P, 'impl<T> Deref for %s<T>' % N, {'deref': C(ret='s', ensures=['s@ == %s' % seq])}, mode='G')
     u.take(P, gh, 'into_tuple', C(ensures=['res.%d == self.%s' % (i, f[i]) for i in range(sh.dim)]), mode='G')
     u.take(P, gh, 'into_array', C(ensures=['res@ == %s' % seq]), mode='G')
+    if sh.dim > 1:
+        tup = '(%s)' % ', '.join(['T'] * sh.dim)
+        u.take_impl(P, 'impl<T> From<%s> for %s<T>' % (tup, N),
+                    {'from': C(ensures=['res.%s == tuple.%d' % (f[i], i) for i in range(sh.dim)])}, mode='G')
     # From<T>: the meaning of a scalar operand
     u.take_impl(P, 'impl<T: Copy> From<T> for %s<T>' % N, mode='G')
     u.from_given.add(norm('impl<T: Copy> From<T> for %s<T>' % N))
@@ -418,3 +422,13 @@ def add_reductions_and_maps(u, sh):
     if u.exp.impls(P, hb):
         u.take(P, hb, 'reduce_and', C(ensures=['res == (%s)' % ' && '.join('self.%s' % x for x in f)]), mode='G')
         u.take(P, hb, 'reduce_or', C(ensures=['res == (%s)' % ' || '.join('self.%s' % x for x in f)]), mode='G')
+
+
+def add_unit_ctors(u):
+    """Vec2/3/4::unit_x .. unit_w (commonly used helpers: keeps units decidable when a change starts calling them)"""
+    from shapes import VEC
+    for nm in ('Vec2', 'Vec3', 'Vec4'):
+        sh = VEC[nm]
+        for f in sh.fields:
+            u.take(sh.path, 'impl<T>%s<T>' % nm, 'unit_' + f,
+                   C(ensures=['res.%s.v@ == %dreal' % (g, 1 if g == f else 0) for g in sh.fields]))
